@@ -31,6 +31,69 @@ import (
 
 const c15Deadline = 30 * time.Second
 
+// c15DeadlineConn wraps the broker side of a connection and records the deadlines the broker sets on it,
+// as time remaining at the moment of the call (milliseconds).
+type c15DeadlineConn struct {
+	net.Conn
+	mu  sync.Mutex
+	set []int64
+}
+
+func (d *c15DeadlineConn) SetDeadline(t time.Time) error {
+	d.mu.Lock()
+	d.set = append(d.set, time.Until(t).Milliseconds())
+	d.mu.Unlock()
+	return d.Conn.SetDeadline(t)
+}
+
+func (d *c15DeadlineConn) SetReadDeadline(t time.Time) error {
+	d.mu.Lock()
+	d.set = append(d.set, time.Until(t).Milliseconds())
+	d.mu.Unlock()
+	return d.Conn.SetReadDeadline(t)
+}
+
+// probeKeepalive connects a throw-away clean client with the given keep-alive, records the read deadline the
+// broker's read loop arms before waiting for the next packet (-1: none), and disconnects it again.
+func (e *c15Env) probeKeepalive(cid string, ka int) (int64, string) {
+	e.keepalive = uint16(ka)
+	cli, code := e.dial(cid, true, true)
+	if cli == nil {
+		return -2, fmt.Sprintf("connect refused %d", code)
+	}
+	res := int64(-1)
+	note := ""
+	if cli.client == nil || cli.eofSeen() {
+		note = "dropped at once"
+		res = -3
+	} else {
+		c15Quiesce(e.open) // its read loop is parked in the socket read (holding the unwrapped conn for this one read)
+		rec := &c15DeadlineConn{Conn: cli.client.conn}
+		cli.client.conn = rec
+		if r := cli.ping(); r != "ok" { // the loop comes round: arms the deadline on the wrapper, reads again
+			note = "barrier " + r
+		}
+		c15Quiesce(e.open)
+		rec.mu.Lock()
+		if n := len(rec.set); n > 0 {
+			res = rec.set[n-1]
+		}
+		rec.mu.Unlock()
+	}
+	cli.write(packets.NewControlPacket(packets.Disconnect))
+	cli.waitFor(func() bool { return false })
+	cli.closeSock()
+	e.open--
+	c15Quiesce(e.open)
+	return res, note
+}
+
+func (c *c15Cli) eofSeen() bool {
+	c.mu.Lock()
+	defer c.mu.Unlock()
+	return c.eof
+}
+
 // c15Will is the will message of a CONNECT; the recording publish pipeline decides by the first payload byte.
 type c15Will struct {
 	Topic   string `json:"topic"`
@@ -210,6 +273,8 @@ type c15Env struct {
 	memberMode string
 	// will of the next CONNECT (nil: none)
 	will *c15Will
+	// keep-alive (seconds) of the next CONNECT
+	keepalive uint16
 	open  int // sockets whose broker-side connection goroutine must still exist
 	clis  []*c15Cli
 }
@@ -523,7 +588,8 @@ func (e *c15Env) dial(cid string, clean bool, autoAck bool) (*c15Cli, int) {
 	cp.ProtocolVersion = 4
 	cp.CleanSession = clean
 	cp.ClientIdentifier = cid
-	cp.Keepalive = 0
+	cp.Keepalive = e.keepalive
+	e.keepalive = 0
 	if w := e.will; w != nil {
 		cp.WillFlag = true
 		cp.WillTopic = w.Topic
